@@ -19,6 +19,7 @@ import os
 import struct
 import sys
 import time
+from common import poke  # noqa: E402
 
 import common
 from common import cZ, cN, cnat, cbool, clist, cbytes
@@ -329,7 +330,7 @@ def impl(kind, inp):
         _quiet()
         tr = ScriptTransport([None if x is None else bytes(x) for x in inp["script"]])
         p = ib.NKTPhotonicsInterbusProtocol(tr, 0.01)
-        p._source_toggle = inp["toggle"]
+        poke(p, "_source_toggle", inp["toggle"])
         try:
             r = p._request_response(inp["d"], ib.MessageType(inp["t"]), inp["g"], bytes(inp["data"]))
             res = ["ok", _msg_tuple(r)]
@@ -371,13 +372,13 @@ def impl(kind, inp):
         import numpy as np
         from qmi.instruments.picoquant.support._decoders import _T2EventDecoder
         dec = _T2EventDecoder()
-        dec._overflow_counter = inp["ovf"]
+        poke(dec, "_overflow_counter", inp["ovf"])
         outs = []
         for b in inp["batches"]:
             ev = dec.process_data(np.array(b, dtype=np.uint32))
             outs.append([[int(t), int(ts)] for t, ts in zip(ev["type"], ev["timestamp"])])
         one = _T2EventDecoder()
-        one._overflow_counter = inp["ovf"]
+        poke(one, "_overflow_counter", inp["ovf"])
         ev = one.process_data(np.array([r for b in inp["batches"] for r in b], dtype=np.uint32))
         return {"events": outs, "ovf": int(dec._overflow_counter),
                 "whole": [[int(t), int(ts)] for t, ts in zip(ev["type"], ev["timestamp"])],
